@@ -21,7 +21,8 @@ RULE = (
     "Model.fit on LinearPsmDatasets from generated tables x learners {linear, svc, knn(proba), tree(proba), "
     "knn(one-column proba)} x max_iter 1..10 x direction None/named x shuffle on/off x a row-permuted copy; each "
     "fit event judged against the replayed training loop; predictions compared across variants when all "
-    "intermediate label sets agree; predict with permuted feature columns; save_model/load_model round trip. "
+    "intermediate label sets agree; predict with permuted feature columns; save_model/load_model round trip; for every integer tunable "
+    "found in mokapot.constants that is not one of the six known chunk constants: a refit under {1,2,3,7,n-1} must predict as the base model. "
     "Non-trivial = >= 2 iterations and both labels among the training rows and at least one iteration in which "
     "the positive set changed; distinct = case parameters."
 )
